@@ -145,7 +145,7 @@ func mergeStats(rep *vh.Report, all []*stats, prefix string) (seqs int64) {
 }
 
 func runExhaustive(rep *vh.Report, env vh.Env) {
-	depth := env.Pick(11, 13)
+	depth := env.Pick(10, 13)
 	var items []workItem
 	var grid []params
 	for t := 1; t <= 3; t++ {
@@ -314,13 +314,25 @@ func TestProp(t *testing.T) {
 		runWalks(rep, env, rf.Index)
 	case rf != nil && rf.Stream == "conc":
 		replayConc(rep, rf)
+	case rf != nil && rf.Stream == "client":
+		runClient(rep, env, rf.Index)
 	case rf != nil:
 		rep.Inconclusive("replay file names an unknown stream: " + rf.Stream)
 	default:
 		runExhaustive(rep, env)
 		runWalks(rep, env, -1)
 		runConcurrent(rep, env)
+		runClient(rep, env, -1)
 		rep.Exhaustive(false)
+		rep.Floor("client_continuation_page_rejected_while_open", 3)
+		rep.Floor("client_half_open_phases", 1)
+		rep.Floor("client_half_open_rejections_at_cap", 2)
+		rep.Floor("client_half_open_continuation_pages", 1)
+		rep.Floor("client_listings_compared", 1)
+		rep.Floor("client_checks_compared", 1)
+		rep.Floor("client_failed_page_ended_listing", 1)
+		rep.Floor("client_check_rejected_while_open", 2)
+		rep.Floor("client_quiescent_points_accounted", 50)
 		for _, f := range []string{"seq_stale_completion_ok", "seq_stale_completion_fail", "seq_rejected_half_open_cap", "seq_rejected_open",
 			"hook_state_change_closed>open(trip)", "hook_state_change_half-open>open(re-open)", "hook_state_change_half-open>closed(reset)",
 			"hook_state_change_open>half-open(lazy)", "seq_lazy_half_open_at_completion", "hook_backoff"} {
